@@ -7,7 +7,7 @@ import threading
 import vlib
 
 # event codes (harness/cmd/c03/main.go, Corr/C03.v)
-MSG, BAN, UNBAN, BLACK, UNBLACK, EXPIRE, DELETE, RATE, CLOSE, OPEN, REKEY, REGISTER, BADJSON, DELANON, CORRUPT, RESTART, BLACKC, UNBLACKC = range(18)
+MSG, BAN, UNBAN, BLACK, UNBLACK, EXPIRE, DELETE, RATE, CLOSE, OPEN, REKEY, REGISTER, BADJSON, DELANON, CORRUPT, RESTART, BLACKC, UNBLACKC, BANLAPSE, LAND, SETREC = range(21)
 A, B, E = 1, 2, 3          # clients registered by the setup prefix; E's credentials are expired
 UNKNOWN = 9001
 
@@ -61,6 +61,50 @@ def cred_cases(depth_one_conn, depth_two_conns):
         for seq in itertools.product(a12, repeat=d):
             if any(x[1] == 2 for x in seq):
                 yield case_of(SETUP_CRED + [list(x) for x in seq])
+
+
+def record_cases(thorough):
+    """the record dimensions the handshake could wrongly gate on: UserID empty / bound x ExpiresAt nil / future / past x Type.
+    Client 1 gets the record state, client 2 stays an ordinary anonymous client (the attacker's own)."""
+    out = []
+    lets = [msg(1, 1), msg(1, 2), msg(1, 1, key=-2), msg(1, 2, key=-2), msg(1, 1, key=2)]
+    depth = 3
+    for uid in (0, 1):
+        for exp in (0, 1, 2):
+            for typ in (0, 1):
+                pre = [[REGISTER], [REGISTER], [SETREC, 1, uid, exp, typ], [OPEN, 1, 0]]
+                for d in range(1, depth + 1):
+                    for seq in itertools.product(lets, repeat=d):
+                        if d == 3 and not thorough and seq[0][2:5] != [1, 0, -1] and seq[0][2:5] != [2, 0, -1]:
+                            continue        # quick: length 3 only after a phase 1
+                        out.append(case_of(pre + [list(x) for x in seq], slots=(1,), addrs=(0,)))
+                # the record is rewritten while a challenge is pending / after a login / across a restart
+                out.append(case_of([[REGISTER], [REGISTER], [OPEN, 1, 0], msg(1, 1), [SETREC, 1, uid, exp, typ], msg(1, 1, key=-2)], slots=(1,), addrs=(0,)))
+                out.append(case_of([[REGISTER], [REGISTER], [SETREC, 1, uid, exp, typ], [RESTART, 0], [OPEN, 1, 0], msg(1, 1), msg(1, 1, key=-2)], slots=(1,), addrs=(0,)))
+                out.append(case_of([[REGISTER], [REGISTER], [SETREC, 1, uid, 2, typ], [SETREC, 1, uid, exp, typ], [OPEN, 1, 0], msg(1, 1), msg(1, 1, key=-2),
+                                    [SETREC, 1, 1 - uid, 2, typ], msg(1, 1), msg(1, 1, key=-2)], slots=(1,), addrs=(0,)))
+    return out
+
+
+def reban_cases(trials):
+    """expired ban record | handshake (IsBanned spawns the asynchronous removal) | re-ban | removal lands | the address must
+    still be refused.  `hold` keeps the process on one P between the lapse and the landing so that the spawned goroutine
+    lands after the re-ban; without hold the goroutine usually lands first (both orders are legal schedules)."""
+    out = []
+    for _ in range(trials):
+        for hold in (1, 0):
+            # re-ban by the failure recorded in the very handshake whose gate check spawned the removal
+            out.append(case_of(SETUP2 + [msg(1, UNKNOWN)] * 4 + [[BANLAPSE, 0, hold], msg(1, UNKNOWN), [LAND, 0],
+                                         msg(1, 0, new=1), msg(1, A), msg(2, B), msg(2, B, key=-2)]))
+            # operator re-ban right after a harmless phase 1 from the address
+            out.append(case_of(SETUP2 + [[BANLAPSE, 0, hold], msg(1, A), [BAN, 0], [LAND, 0], msg(1, A, key=-2), msg(1, 0, new=1),
+                                         [UNBAN, 0], msg(1, A), msg(1, A, key=-2)]))
+            # a ban in force is not weakened by a short one, and is not lifted by the landing
+            out.append(case_of(SETUP2 + [[BAN, 0], [BANLAPSE, 0, hold], msg(1, A), [LAND, 0], msg(1, 0, new=1), [RESTART, 0], [OPEN, 1, 0], msg(1, A)]))
+            # first connection as the spawning handshake, re-ban by failures of a second connection from the same address
+            out.append(case_of(SETUP2[:-1] + [[OPEN, 2, 0]] + [msg(2, UNKNOWN)] * 4 + [[BANLAPSE, 0, hold], msg(1, 0, new=1, tun=1), msg(2, UNKNOWN),
+                                                               [LAND, 0], msg(2, A), msg(1, 0, new=1)], addrs=(0,)))
+    return out
 
 
 def restart_cases():
@@ -150,10 +194,19 @@ def random_case(rng, nconn=3, naddr=2, length=None):
             for kk in range(1, nconn + 1):
                 if rng.random() < 0.8:
                     ops.append([OPEN, kk, rng.randrange(naddr)])
-        elif r < 0.80:
+        elif r < 0.78:
             x = rng.choice(live)
             if x not in gone:
                 ops.append([EXPIRE, x])
+        elif r < 0.795:
+            x = rng.choice(live)
+            if x not in gone:
+                ops.append([SETREC, x, rng.randrange(3), rng.randrange(3), rng.randrange(2)])
+        elif r < 0.80:
+            a = rng.randrange(naddr)
+            ops.append([BANLAPSE, a, 0])
+            if rng.random() < 0.5:
+                ops.append([LAND, a])
         elif r < 0.83:
             x = rng.choice(live)
             if x not in gone:
@@ -236,8 +289,10 @@ def enc_ev(op, st):
         return [OPEN, op[1], op[2]]
     if c == BLACK:
         return [BLACK, op[1]]
-    if c in (BLACKC, UNBLACKC, RESTART):
+    if c in (BLACKC, UNBLACKC, RESTART, BANLAPSE, LAND):
         return [c, op[1]]
+    if c == SETREC:
+        return [SETREC, op[1], 1 if op[3] == 2 else 0, op[2] * 2 + op[4]]
     if c == CORRUPT:
         return [CORRUPT, op[1], 1 if op[2] == 0 else 0]
     return [c, op[1]]
@@ -261,7 +316,7 @@ def shrink(binary, case, key):
     for _ in range(60):
         changed = False
         for i in range(len(cur["ops"]) - 1, nset - 1, -1):
-            if cur["ops"][i][0] in (REGISTER, OPEN, CORRUPT):
+            if cur["ops"][i][0] in (REGISTER, OPEN, CORRUPT, BANLAPSE, LAND):
                 continue
             t = dict(cur, ops=cur["ops"][:i] + cur["ops"][i + 1:])
             if fails(t):
@@ -324,6 +379,8 @@ def run(ctx, only_cases=None):
         cases += [random_case(rng) for _ in range(20000 if thorough else 2500)]
         cases += [lockout_case(rng) for _ in range(40 if thorough else 10)]
         cases += restart_cases()
+        cases += record_cases(thorough)
+        cases += reban_cases(12 if thorough else 4)
     outs = run_parallel(binary, cases)
 
     # (iii) the property predicate, evaluated by the harness' specification monitor on the real code's state and outputs
@@ -380,7 +437,7 @@ def run(ctx, only_cases=None):
     for c in cases:
         for op in c["ops"]:
             kinds[op[0]] = kinds.get(op[0], 0) + 1
-    names = ["msg", "ban", "unban", "blacklist", "unblacklist", "expire", "delete", "rate", "close", "open", "rekey", "register", "badjson", "delete_anonymous", "corrupt_stored_credential", "restart", "blacklist_cidr", "unblacklist_cidr"]
+    names = ["msg", "ban", "unban", "blacklist", "unblacklist", "expire", "delete", "rate", "close", "open", "rekey", "register", "badjson", "delete_anonymous", "corrupt_stored_credential", "restart", "blacklist_cidr", "unblacklist_cidr", "ban_lapse", "async_unban_lands", "set_record"]
     ctx.coverage.update({
         "evaluations": len(cases), "distinct_nontrivial": len(nontrivial),
         "exhaustive": bool(exhaustive),
@@ -409,6 +466,8 @@ def run(ctx, only_cases=None):
         "time is not modelled: expiry, unban and un-blacklisting are explicit events; the IP whitelist is empty; GenerateAnonymousCredentials / "
         "GenerateChallenge / storage do not fail; fewer than 5000 control connections",
         "a ControlConnection object is identified with its connection id while registered (harness compares object identity)",
+        "the asynchronous unbanIfExpired goroutine is steered with GOMAXPROCS(1) between the lapse and the landing (no hook in /repo): the order "
+        "'re-ban before landing' is then the usual but not a guaranteed schedule; both orders are legal and the model (landing = no-op) covers both",
         "restart = every server component rebuilt over the same storage (new fixture: IPManager, BruteForceProtector, RateLimiter, SessionManager, "
         "cloud control, SecretKeyManager with the same master key): persistent = client configs and the IP black/white lists (ip_manager_storage.go); "
         "in memory only = connections, registry, pending challenges, rate-limiter buckets and the brute-force failure records AND bans "
